@@ -303,6 +303,32 @@ fn main() {
         eprintln!("usage: mcx <C01..C20> <quick|thorough> | mcx replay <file>");
         std::process::exit(2);
     }
+    if args[1] == "find-edge-cookies" {
+        // offline helper: search key[0] values such that the harness's SipHash guess of the
+        // cookie of flow 10.0.0.9:40000 -> 10.0.0.1:80 is 0xffffffff / 0x00000000
+        let nthreads = 16u64;
+        let span: u64 = args[2].parse().unwrap_or(1 << 32);
+        std::thread::scope(|sc| {
+            for t in 0..nthreads {
+                sc.spawn(move || {
+                    let mut d = [0u8; 12];
+                    d[0..4].copy_from_slice(&u32::from_be_bytes([10, 0, 0, 9]).to_ne_bytes());
+                    d[4..8].copy_from_slice(&u32::from_be_bytes([10, 0, 0, 1]).to_ne_bytes());
+                    d[8..10].copy_from_slice(&40000u16.to_ne_bytes());
+                    d[10..12].copy_from_slice(&80u16.to_ne_bytes());
+                    let mut k = t;
+                    while k < span {
+                        let c = (sip::siphash24(k, 0x5eed, &d) & 0xffff_ffff) as u32;
+                        if c == 0xffff_ffff || c == 0 || c == 0xffff_fffe || c == 1 {
+                            println!("key0={:#x} key1=0x5eed cookie={:#010x}", k, c);
+                        }
+                        k += nthreads;
+                    }
+                });
+            }
+        });
+        return;
+    }
     if args[1] == "replay" {
         std::process::exit(replay(&args[2]));
     }
